@@ -383,15 +383,39 @@ fn tcp_socket_write_vectored(
 }
 
 impl SocketHandler for TcpStream {
+    #[cfg_attr(feature = "verif-hooks", allow(unreachable_code))]
     fn socket_read(&mut self, buf: &mut [u8]) -> (usize, SocketResult) {
+        #[cfg(feature = "verif-hooks")]
+        {
+            let requested = buf.len();
+            let r = tcp_socket_read(self, buf, None, None);
+            crate::verif::io("tcp", "read", requested, r.0, r.1);
+            return r;
+        }
         tcp_socket_read(self, buf, None, None)
     }
 
+    #[cfg_attr(feature = "verif-hooks", allow(unreachable_code))]
     fn socket_write(&mut self, buf: &[u8]) -> (usize, SocketResult) {
+        #[cfg(feature = "verif-hooks")]
+        {
+            let requested = buf.len();
+            let r = tcp_socket_write(self, buf, None, None);
+            crate::verif::io("tcp", "write", requested, r.0, r.1);
+            return r;
+        }
         tcp_socket_write(self, buf, None, None)
     }
 
+    #[cfg_attr(feature = "verif-hooks", allow(unreachable_code))]
     fn socket_write_vectored(&mut self, bufs: &[std::io::IoSlice]) -> (usize, SocketResult) {
+        #[cfg(feature = "verif-hooks")]
+        {
+            let requested = bufs.iter().map(|b| b.len()).sum::<usize>();
+            let r = tcp_socket_write_vectored(self, bufs, None, None);
+            crate::verif::io("tcp", "writev", requested, r.0, r.1);
+            return r;
+        }
         tcp_socket_write_vectored(self, bufs, None, None)
     }
 
@@ -452,7 +476,15 @@ impl SessionTcpStream {
 }
 
 impl SocketHandler for SessionTcpStream {
+    #[cfg_attr(feature = "verif-hooks", allow(unreachable_code))]
     fn socket_read(&mut self, buf: &mut [u8]) -> (usize, SocketResult) {
+        #[cfg(feature = "verif-hooks")]
+        {
+            let requested = buf.len();
+            let r = tcp_socket_read(&mut self.stream, buf, Some(self.session_ulid), self.configured_peer);
+            crate::verif::io("session_tcp", "read", requested, r.0, r.1);
+            return r;
+        }
         tcp_socket_read(
             &mut self.stream,
             buf,
@@ -461,7 +493,15 @@ impl SocketHandler for SessionTcpStream {
         )
     }
 
+    #[cfg_attr(feature = "verif-hooks", allow(unreachable_code))]
     fn socket_write(&mut self, buf: &[u8]) -> (usize, SocketResult) {
+        #[cfg(feature = "verif-hooks")]
+        {
+            let requested = buf.len();
+            let r = tcp_socket_write(&mut self.stream, buf, Some(self.session_ulid), self.configured_peer);
+            crate::verif::io("session_tcp", "write", requested, r.0, r.1);
+            return r;
+        }
         tcp_socket_write(
             &mut self.stream,
             buf,
@@ -470,7 +510,15 @@ impl SocketHandler for SessionTcpStream {
         )
     }
 
+    #[cfg_attr(feature = "verif-hooks", allow(unreachable_code))]
     fn socket_write_vectored(&mut self, bufs: &[std::io::IoSlice]) -> (usize, SocketResult) {
+        #[cfg(feature = "verif-hooks")]
+        {
+            let requested = bufs.iter().map(|b| b.len()).sum::<usize>();
+            let r = tcp_socket_write_vectored(&mut self.stream, bufs, Some(self.session_ulid), self.configured_peer);
+            crate::verif::io("session_tcp", "writev", requested, r.0, r.1);
+            return r;
+        }
         tcp_socket_write_vectored(
             &mut self.stream,
             bufs,
@@ -664,6 +712,22 @@ impl SocketHandler for FrontRustls {
             !(is_error && is_closed),
             "rustls socket_read cannot be both Error and Closed"
         );
+        #[cfg(feature = "verif-hooks")]
+        crate::verif::io(
+            "rustls",
+            "read",
+            buf.len(),
+            size,
+            if is_error {
+                SocketResult::Error
+            } else if is_closed {
+                SocketResult::Closed
+            } else if size != buf.len() && !can_read {
+                SocketResult::WouldBlock
+            } else {
+                SocketResult::Continue
+            },
+        );
         if is_error {
             (size, SocketResult::Error)
         } else if is_closed {
@@ -846,6 +910,22 @@ impl SocketHandler for FrontRustls {
         debug_assert!(
             !(is_error && is_closed),
             "rustls socket_write cannot be both Error and Closed"
+        );
+        #[cfg(feature = "verif-hooks")]
+        crate::verif::io(
+            "rustls",
+            "write",
+            buf.len(),
+            buffered_size,
+            if is_error {
+                SocketResult::Error
+            } else if is_closed {
+                SocketResult::Closed
+            } else if !can_write {
+                SocketResult::WouldBlock
+            } else {
+                SocketResult::Continue
+            },
         );
         if is_error {
             (buffered_size, SocketResult::Error)
@@ -1065,6 +1145,22 @@ impl SocketHandler for FrontRustls {
         debug_assert!(
             !(is_error && is_closed),
             "rustls socket_write_vectored cannot be both Error and Closed"
+        );
+        #[cfg(feature = "verif-hooks")]
+        crate::verif::io(
+            "rustls",
+            "writev",
+            bufs.iter().map(|b| b.len()).sum::<usize>(),
+            buffered_size,
+            if is_error {
+                SocketResult::Error
+            } else if is_closed {
+                SocketResult::Closed
+            } else if !can_write {
+                SocketResult::WouldBlock
+            } else {
+                SocketResult::Continue
+            },
         );
         if is_error {
             (buffered_size, SocketResult::Error)
